@@ -37,6 +37,25 @@ type c10log struct {
 	mu     sync.Mutex
 	seq    int64
 	events []c10event
+	killed map[gen.PID]bool
+	early  []string // supervisors that reached Terminate (graceful reason) while a child of theirs was still registered
+}
+
+func (l *c10log) kill(n gen.Node, p gen.PID) {
+	l.mu.Lock()
+	if l.killed == nil {
+		l.killed = map[gen.PID]bool{}
+	}
+	l.killed[p] = true
+	l.mu.Unlock()
+	n.Kill(p)
+}
+func (l *c10log) wasKilled(p gen.PID) bool { l.mu.Lock(); defer l.mu.Unlock(); return l.killed[p] }
+func (l *c10log) addEarly(s string) { l.mu.Lock(); l.early = append(l.early, s); l.mu.Unlock() }
+func (l *c10log) earlyList() []string {
+	l.mu.Lock()
+	defer l.mu.Unlock()
+	return append([]string(nil), l.early...)
 }
 
 func (l *c10log) add(e c10event) {
@@ -88,6 +107,7 @@ func genC10Spec(rng *Rng, depth int) *c10spec {
 }
 
 type c10crash struct{}
+type c10ping struct{}
 type c10block struct {
 	entered chan struct{}
 	gate    chan struct{}
@@ -156,6 +176,19 @@ func (s *c10sup) HandleMessage(from gen.PID, m any) error {
 	return nil
 }
 func (s *c10sup) Terminate(reason error) {
+	// a supervisor that terminates on its own account (shutdown request, restart intensity exceeded, strategy
+	// exhausted) has waited for its children: none of them is registered any more. A killed or crashed supervisor
+	// takes them down through the parent link afterwards.
+	// (a killed supervisor can still be inside a callback and end with another reason, e.g. "not allowed" from Spawn)
+	if reason != gen.TerminateReasonKill && reason != gen.TerminateReasonPanic && reason != nil && reason.Error() != "crash" && !s.l.wasKilled(s.PID()) {
+		for _, e := range s.l.snapshot() {
+			if e.kind == "spawn" && e.parent == s.PID() {
+				if _, err := s.Node().ProcessInfo(e.pid); err == nil {
+					s.l.addEarly(fmt.Sprintf("supervisor %s terminated (%v) while its child %s was still registered", s.PID(), reason, e.pid))
+				}
+			}
+		}
+	}
 	s.l.add(c10event{kind: "term", pid: s.PID(), reason: reason})
 }
 
@@ -282,16 +315,36 @@ func runC10(c *Ctx) {
 			if isParent[victim] && victim != root {
 				inner = true
 			}
-			kind := c.Rng.Intn(3)
+			kind := c.Rng.Intn(4)
 			switch kind {
 			case 0:
-				k.Node.Kill(victim)
+				l.kill(k.Node, victim)
 			case 1:
 				k.Node.SendExit(victim, errors.New("fault-exit"))
 			case 2:
 				k.Node.Send(victim, c10crash{})
+			case 3:
+				// a slow process: busy in a callback for 0.3-3 ms, whatever reaches it meanwhile has to wait
+				b := c10block{entered: make(chan struct{}), gate: make(chan struct{})}
+				k.Node.Send(victim, b)
+				d := time.Duration(300+c.Rng.Intn(2700)) * time.Microsecond
+				time.AfterFunc(d, func() { close(b.gate) })
 			}
-			faults = append(faults, fmt.Sprintf("%s@%d", []string{"kill", "exit", "crash"}[kind], victim.ID-root.ID))
+			faults = append(faults, fmt.Sprintf("%s@%d", []string{"kill", "exit", "crash", "slow"}[kind], victim.ID-root.ID))
+			if c.Rng.Chance(1, 2) {
+				// traffic through every live pool: a pool replaces a dead worker when a message reaches its slot
+				for _, e := range l.snapshot() {
+					if e.kind == "spawn" && e.what == "pool" && seen[e.pid] {
+						for i := 0; i < 4; i++ {
+							k.Node.Send(e.pid, c10ping{})
+						}
+					}
+				}
+				faults = append(faults, "pool-traffic")
+				if c.Rng.Bool() {
+					c10settle(k, l)
+				}
+			}
 			switch c.Rng.Intn(4) {
 			case 0:
 			case 1:
@@ -305,7 +358,7 @@ func runC10(c *Ctx) {
 		takeDown := c.Rng.Chance(1, 2)
 		if takeDown {
 			if c.Rng.Bool() {
-				k.Node.Kill(root)
+				l.kill(k.Node, root)
 				faults = append(faults, "kill@root")
 			} else {
 				k.Node.SendExit(root, gen.TerminateReasonShutdown)
@@ -344,6 +397,9 @@ func runC10(c *Ctx) {
 						break
 					}
 				}
+			}
+			for _, e := range l.earlyList() {
+				r.Violation("C10/terminated-before-children", e, rp)
 			}
 			if takeDown && liveNow(root) == false {
 				for p := range parentOf {
@@ -442,7 +498,93 @@ func runC10(c *Ctx) {
 		}
 		c10settle(k, l)
 	}
+	c10window(c, k)
 	c10apps(c, k)
+}
+
+// c10window: a shutdown request that reaches a supervisor while a restart is in progress and one child is slow.
+// Directed family over supervisor type x strategy x crashed child x slow child x kind of take-down; the supervisor
+// must not reach Terminate before every child is gone, and nothing survives.
+func c10window(c *Ctx, k *K4) {
+	r := c.R
+	rounds := c.N(1, 6)
+	for round := 0; round < rounds; round++ {
+		for supType := 0; supType < 3; supType++ {
+			for strategy := 0; strategy < 3; strategy++ {
+				for crashed := 0; crashed < 3; crashed++ {
+					for slow := 0; slow < 3; slow++ {
+						if slow == crashed {
+							continue
+						}
+						l := &c10log{}
+						spec := &c10spec{Kind: "sup", SupType: supType, Strategy: strategy, Keep: round%2 == 1,
+							Children: []*c10spec{{Kind: "leaf"}, {Kind: "leaf"}, {Kind: "leaf"}}}
+						root, err := k.Node.Spawn(c10factory(l, spec), gen.ProcessOptions{})
+						if err != nil {
+							r.Count("inconclusive:spawn")
+							continue
+						}
+						c10settle(k, l)
+						var kids []gen.PID
+						for _, e := range l.snapshot() {
+							if e.kind == "spawn" && e.parent == root {
+								kids = append(kids, e.pid)
+							}
+						}
+						if len(kids) != 3 {
+							k.Node.Kill(root)
+							c10settle(k, l)
+							continue
+						}
+						b := c10block{entered: make(chan struct{}), gate: make(chan struct{})}
+						k.Node.Send(kids[slow], b)
+						select {
+						case <-b.entered:
+						case <-time.After(time.Second):
+						}
+						how := (round + crashed + slow) % 2
+						if how == 0 {
+							k.Node.Kill(kids[crashed])
+						} else {
+							k.Node.Send(kids[crashed], c10crash{})
+						}
+						// let the supervisor see the termination and start its strategy, then ask it to shut down
+						waitUntil(time.Second, func() bool { _, e := k.Node.ProcessInfo(kids[crashed]); return e != nil })
+						time.Sleep(time.Duration(100+c.Rng.Intn(400)) * time.Microsecond)
+						k.Node.SendExit(root, gen.TerminateReasonShutdown)
+						time.Sleep(2 * time.Millisecond)
+						close(b.gate)
+						settled := c10settle(k, l)
+						rp := map[string]interface{}{"sup_type": supType, "strategy": strategy, "crashed": crashed, "slow": slow, "how": how}
+						for _, e := range l.earlyList() {
+							r.Violation("C10/terminated-before-children", e, rp)
+						}
+						if settled {
+							if _, e := k.Node.ProcessInfo(root); e != nil {
+								for _, ev := range l.snapshot() {
+									if ev.kind == "spawn" {
+										if _, e := k.Node.ProcessInfo(ev.pid); e == nil {
+											r.Violation("C10/survivor", fmt.Sprintf("the supervisor is gone but process %s started under it is still alive", ev.pid), rp)
+											break
+										}
+									}
+								}
+							}
+						}
+						r.Case(fmt.Sprintf("window/%d/%d/%d/%d/%d", supType, strategy, crashed, slow, how), true)
+						r.Count("window")
+						k.Node.Kill(root)
+						for _, ev := range l.snapshot() {
+							if ev.kind == "spawn" {
+								k.Node.Kill(ev.pid)
+							}
+						}
+						c10settle(k, l)
+					}
+				}
+			}
+		}
+	}
 }
 
 func specString(s *c10spec) string {
